@@ -2,6 +2,7 @@ package main
 
 import (
 	"runtime"
+	"runtime/pprof"
 	"sync"
 	"encoding/json"
 	"flag"
@@ -39,6 +40,7 @@ type HarnessSpec struct {
 	NativeAttempts int              `json:"native_attempts"` // native replays to try when the schedule is racy (default 1)
 	SchedForks  *bool               `json:"sched_forks"`
 	NoDiff      bool                `json:"no_diff"` // skip the engine-vs-native differential
+	DiffTraces  int                 `json:"diff_traces"` // cap on differential traces for this harness (0 = default)
 	Note        string              `json:"note"`
 }
 
@@ -99,8 +101,21 @@ func main() {
 	if d := os.Getenv("VERIF_DIR"); d != "" {
 		verifDir = d
 	}
+	if pf := os.Getenv("GOSYM_CPUPROF"); pf != "" {
+		f, _ := os.Create(pf)
+		pprof.StartCPUProfile(f)
+		defer pprof.StopCPUProfile()
+		go func() {
+			time.Sleep(40 * time.Second)
+			pprof.StopCPUProfile()
+			os.Exit(9)
+		}()
+	}
 	switch os.Args[1] {
 	case "run":
+		rc := cmdRun(os.Args[2:])
+		pprof.StopCPUProfile()
+		os.Exit(rc)
 		os.Exit(cmdRun(os.Args[2:]))
 	case "shard":
 		os.Exit(cmdShard(os.Args[2:]))
